@@ -5,7 +5,8 @@
    sum over active records; locked + scheduled + liquid tokens stay constant; an account controls at most one
    miner; a rejected miner transaction changes nothing but the fee. *)
 From Coq Require Import List ZArith NArith Lia Bool.
-From V.C20 Require Import Model Proofs Unique Ledger KeyModel KeyProofs.
+From V.C20 Require Import Model Proofs Unique Ledger KeyModel KeyProofs KeyHistory Tolerance.
+From V.C20 Require Harness.
 Import ListNotations.
 Local Open Scope Z_scope.
 
@@ -193,6 +194,59 @@ Theorem C20_account_unique_keys : forall H idkey au, keys_disjoint H idkey ->
 Proof. exact k_unique_step. Qed.
 Print Assumptions C20_account_unique_keys.
 
+(* ---- key-level HISTORIES: the store invariant and the lifted history theorems ---- *)
+(* every key of an id holds a record of that id, its H / H^2 / H^3 keys hold a stake / an account / a status, no
+   other key is used: true of the empty registry, kept by every executor's write command and by the flush *)
+Theorem C20_store_inv_empty : forall H idkey, store_inv H idkey (fun _ _ => None).
+Proof. exact store_inv_empty. Qed.
+Print Assumptions C20_store_inv_empty.
+
+Theorem C20_store_inv_preserved : forall H idkey, keys_disjoint H idkey -> forall st w,
+  store_inv H idkey st -> store_inv H idkey (k_apply_w H idkey st w) /\ store_inv H idkey (flush st).
+Proof. intros H idkey Hd st w Hs. split; [apply apply_w_inv; assumption|apply flush_inv; assumption]. Qed.
+Print Assumptions C20_store_inv_preserved.
+
+(* a whole chain of blocks on byte-string keys (transactions, after(), flush) is the slot-level chain on the view *)
+Theorem C20_key_chain_simulation : forall H idkey au, keys_disjoint H idkey -> forall e bs s, kst_inv H idkey s ->
+  kst_inv H idkey (k_run_chain H idkey au e bs s) /\
+  st_eq (view H idkey au (k_run_chain H idkey au e bs s)) (run_chain e bs (view H idkey au s)).
+Proof. exact k_run_chain_sim. Qed.
+Print Assumptions C20_key_chain_simulation.
+
+Theorem C20_conservation_keys_history : forall H idkey au, keys_disjoint H idkey ->
+  forall A I e bs W s, kst_inv H idkey s -> universe A I -> supply_bound (W + minted_chain bs) ->
+  Forall (block_closed_led A I) bs -> led_inv A I W (view H idkey au s) ->
+  led_inv A I (W + minted_chain bs) (view H idkey au (k_run_chain H idkey au e bs s)).
+Proof. exact k_history_conservation. Qed.
+Print Assumptions C20_conservation_keys_history.
+
+Theorem C20_stake_history_keys : forall H idkey au, keys_disjoint H idkey ->
+  forall A I e bs W s i, kst_inv H idkey s -> universe A I -> supply_bound (W + minted_chain bs) ->
+  Forall (block_closed_led A I) bs -> led_inv A I W (view H idkey au s) ->
+  stake_of (view H idkey au (k_run_chain H idkey au e bs s)) i =
+  stake_of (view H idkey au s) i + booked_chain e bs (view H idkey au s) i.
+Proof. exact k_history_stake. Qed.
+Print Assumptions C20_stake_history_keys.
+
+Theorem C20_account_unique_keys_history : forall H idkey au, keys_disjoint H idkey ->
+  forall e bs s, kst_inv H idkey s -> reg_wf (ids e) (view H idkey au s) ->
+  Forall (fun b => block_closed (ids e) (block_txs b)) bs -> guarded_chain e bs (view H idkey au s) ->
+  acct_unique (view H idkey au s) ->
+  reg_wf (ids e) (view H idkey au (k_run_chain H idkey au e bs s)) /\
+  acct_unique (view H idkey au (k_run_chain H idkey au e bs s)).
+Proof. exact k_history_unique. Qed.
+Print Assumptions C20_account_unique_keys_history.
+
+Theorem C20_history_views_agree_keys : forall H idkey au, keys_disjoint H idkey ->
+  forall e bs s, kst_inv H idkey s -> boundary (view H idkey au s) -> reg_wf (ids e) (view H idkey au s) ->
+  acct_unique (view H idkey au s) -> Forall (fun b => block_closed (ids e) (block_txs b)) bs ->
+  guarded_chain e bs (view H idkey au s) ->
+  let s' := view H idkey au (k_run_chain H idkey au e bs s) in
+  forall k i, registered s' k i ->
+    get_miner s' i = Some (k, cur s' k i) /\ In i (iter_ids e s' k) /\ by_account e s' (s_acct (cur s' k i)) = Some i.
+Proof. exact k_history_views_agree. Qed.
+Print Assumptions C20_history_views_agree_keys.
+
 (* without keys_disjoint the statements are FALSE, for ANY hash: y = H(x) / H(H(x)) / H(H(H(x))) *)
 Theorem C20_alias_stake_refuted : forall (H : key -> key) idkey au st k x y n ap stake acct,
   idkey y = H (idkey x) -> H (idkey x) <> H (H (idkey x)) -> H (idkey x) <> H (H (H (idkey x))) ->
@@ -233,6 +287,18 @@ Theorem C20_stake_accounting_keys_refuted :
   stake_of (view Hc idc (fun _ => 0%N) (fst r)) 1 = Z.of_N JSONPFX.
 Proof. exact stake_accounting_keys_refuted. Qed.
 Print Assumptions C20_stake_accounting_keys_refuted.
+
+(* ---- the reward comparison tolerance is a consequence of the way the code computes ---- *)
+(* per account: at most 16 terms, each a float64 value within 2^-41 (relative) of its exact rational and truncated to
+   whole wei => the sum passes the comparison "relative 2^-40 plus 16 wei" against the exact specification *)
+Theorem C20_reward_tolerance_sound : forall D ts, 0 < D -> Forall (term_ok D) ts -> (length ts <= 16)%nat ->
+  Tolerance.close (sum_a ts) (sum_v ts) D = true.
+Proof. exact tolerance_sound. Qed.
+Print Assumptions C20_reward_tolerance_sound.
+
+Theorem C20_reward_tolerance_is_the_harness_one : forall obs num den, Harness.close obs num den = Tolerance.close obs num den.
+Proof. reflexivity. Qed.
+Print Assumptions C20_reward_tolerance_is_the_harness_one.
 
 (* ---- the hypotheses are satisfiable ---- *)
 Example C20_hypotheses_satisfiable :
